@@ -123,6 +123,13 @@ def rule_D6_ownership(tree: Tree) -> RuleResult:
             for n in body_walk(f.node):
                 if isinstance(n, (ast.Global, ast.Nonlocal)):
                     bad.append(f"{f.qualname}: {src(n)}")
+                # instance attribute bound to a module-level mutable object (alias shared by all instances)
+                if isinstance(n, (ast.Assign, ast.AnnAssign)) and getattr(n, "value", None) is not None:
+                    tg0 = n.targets[0] if isinstance(n, ast.Assign) else n.target
+                    if isinstance(tg0, ast.Attribute) and dotted(tg0.value) == "self" and isinstance(n.value, ast.Name):
+                        nm = n.value.id
+                        if nm in c.module.assigns and _is_mutable_literal(c.module.assigns[nm]) and nm not in f.params and not _is_local(f, nm):
+                            bad.append(f"{f.qualname}: `{src(n, 60)}` aliases the module-level object `{nm}` — every instance shares (and mutates) it")
                 # writes through the shared key list
                 if isinstance(n, ast.Call) and isinstance(n.func, ast.Attribute) and n.func.attr in MUTATORS:
                     d = dotted(n.func.value) or ""
@@ -226,7 +233,9 @@ def rule_D6_nondet(tree: Tree) -> RuleResult:
                 it = n.iter
             if it is None:
                 continue
-            if not _is_set_expr(it, set_attrs):
+            local_sets = {dotted(a.targets[0]) for a in body_walk(f.node) if isinstance(a, ast.Assign) and len(a.targets) == 1 and dotted(a.targets[0])
+                          and _is_set_expr(a.value, set_attrs)}
+            if not _is_set_expr(it, set_attrs) and not (dotted(it) in local_sets):
                 continue
             if isinstance(it, ast.Call) and dotted(it.func) == "sorted":
                 continue
